@@ -132,7 +132,8 @@ theorem rootsFree_noRoots {sd : SchemaDoc} (h : Spec.rootOperationTypesOnce sd =
 
 /-- everything after the maps are built passes (`finish`): "Cannot have multiple schema entry points"
     (schema.go:117) — `singleSchemaDef`; the schema blocks; `validateTypeDefinitions`;
-    `validateDirectiveDefinitions` -/
+    `validateDirectiveDefinitions`; "Schema root %s must be an object type, %s is a %s." —
+    `rootTypesAreObjects` -/
 theorem load_finish_ok_of_wf {sd : SchemaDoc} {st : LState} (W : WfState sd st) : ∃ s, finish sd st = .ok s := by
   have hsingle := W.wf.singleSchemaDef
   simp only [Spec.singleSchemaDef, decide_eq_true_eq] at hsingle
@@ -140,8 +141,12 @@ theorem load_finish_ok_of_wf {sd : SchemaDoc} {st : LState} (W : WfState sd st) 
     (sd.schemaExt.flatMap (·.opTypes)) (rootsFree_noRoots W.wf.rootOperationTypesOnce)
   obtain ⟨r1, d1, h1, _⟩ := load_applySchemaDefs_ok_of_wf W (l := sd.schemaExt) (fun s hs => by simp [hs]) d0 []
     (by simpa using hfree0)
+  -- "Schema root %s must be an object type, %s is a %s." (the last check) — `rootTypesAreObjects`
+  have hk : checkRootKinds st (finalRoots sd st r1) = .pass :=
+    check_of_rootIsObject W.typesInv W.typeEq (rootsFrom_of_apply h0 h1)
+      ((rootTypesAreObjectsDoc_iff sd).mp W.wf.rootTypesAreObjects)
   exact ⟨_, finish_eq_ok hsingle h0 h1 (load_validateTypeDefinitions_ok_of_wf W)
-    (load_validateDirectiveDefinitions_ok_of_wf W)⟩
+    (load_validateDirectiveDefinitions_ok_of_wf W) hk⟩
 
 /-- completeness from the two facts about the directive map it needs -/
 theorem load_complete_of {sd : SchemaDoc} (h : Spec.WellFormed sd) (hext : ∀ e ∈ sd.extensions, e.builtIn = false)
